@@ -91,38 +91,62 @@ def h_str(ctx, kind, fancy, n_dec):
         ctx.vc("reads back to the rounded value (mod %d)" % top, min(d, top - d) <= float(half) + 1e-9)
         return
     tpl, args = (out, ()) if isinstance(out, str) else (out.template, out.args)
-    sep = " " if fancy else ":"
-    nfields = len(args)
-    # which field leads: 3 args -> degrees, 2 -> minutes, 1 -> seconds, 0 -> all zero
-    lead = args[0] if nfields else 0
-    rest = list(args[1:])
-    ctx.vc("template is one of the documented shapes",
-           tpl in ("{}d {}' {}''", "{}h {}' {}''", "{}' {}''", "{}''", "0d 0' 0.0''", "0h 0' 0.0''",
-                   "{}:{}:{}", "0:{}:{}", "0:0:{}", "0:0:0.0"))
-    for i, x in enumerate(rest):
-        ctx.vc("field after the leading one is non-negative (sign shown once)", x >= 0)
-    if nfields == 3:
-        D, M, S = abs(args[0]), args[1], args[2]
-        ctx.vc("leading field is non-zero", args[0] != 0)
-    elif nfields == 2:
-        D, M, S = 0, abs(args[0]), args[1]
-        ctx.vc("leading field is non-zero", args[0] != 0)
-    elif nfields == 1:
-        D, M, S = 0, 0, abs(args[0])
-        ctx.vc("leading field is non-zero", args[0] != 0)
-    else:
-        D, M, S = 0, 0, 0
+    # the printed fields, independent of how the code splits them between template text and arguments
+    fields = template_fields(tpl, list(args))
+    ctx.vc("output has the documented shape (degrees/hours, minutes, seconds in that order)", fields is not None)
+    if fields is None:
+        return
+    D, M, S = (Num.of(v) for v in fields)
+    ctx.vc("sign shown exactly once, on the leading non-zero field",
+           and_(implies(D != 0, and_(M >= 0, S >= 0)), implies(and_(D == 0, M != 0), S >= 0)))
     # (the property forbids 60 in minutes/seconds only: ra_str() may print 24h 0' 0.0'' for 23h59m59.99..s,
     #  which still reads back to the rounded value modulo 24 h)
-    ctx.vc("never 60 in the minutes or seconds field", and_(M >= 0, M <= 59, S >= 0, S < 60, D >= 0, D <= top))
-    mag = D + Num.of(M) / 60 + Num.of(S) / 3600
-    neg = (lead < 0) if nfields else False
-    shown = ite(neg, -1, 1) * mag
+    ctx.vc("never 60 in the minutes or seconds field",
+           and_(abs(M) <= 59, abs(S) < 60, abs(D) <= top, M == floor_(M), D == floor_(D)))
+    neg = or_(D < 0, and_(D == 0, M < 0), and_(D == 0, M == 0, S < 0))
+    shown = ite(neg, -1, 1) * (abs(D) + abs(M) / 60 + abs(S) / 3600)
     diff = shown - value
     near = lambda u: and_(u <= half, u >= -half)
     ctx.vc("reads back to the value rounded at the requested decimal (mod %d)" % top,
            or_(near(diff), near(diff - top), near(diff + top)))
     ctx.vc("sign shown only for negative values", implies(neg, value < 0))
+
+
+def template_fields(tpl, args):
+    """(degrees-or-hours, minutes, seconds) shown by a format template with its arguments; literal numerals in the
+    template count as shown fields; a missing leading field counts as 0.  None if the shape is not recognised."""
+    import re as _re
+    args = list(args)
+
+    def val(tok):
+        if tok == "{}":
+            return args.pop(0) if args else None
+        try:
+            return Fraction(tok)
+        except Exception:
+            return None
+    if ":" in tpl:
+        parts = tpl.split(":")
+        if len(parts) != 3:
+            return None
+        vals = [val(p_) for p_ in parts]
+    else:
+        toks = _re.findall(r"(\{\}|-?[0-9.]+)(d|h|''|')", tpl)
+        rebuilt = " ".join(a + b for a, b in toks)
+        if rebuilt != tpl:
+            return None
+        got = {}
+        for a, b in toks:
+            unit = {"d": 0, "h": 0, "'": 1, "''": 2}[b]
+            if unit in got:
+                return None
+            got[unit] = val(a)
+        if sorted(got) != list(range(3 - len(got), 3)):
+            return None
+        vals = [got.get(0, 0), got.get(1, 0), got.get(2, 0)]
+    if any(v is None for v in vals) or args:
+        return None
+    return vals
 
 
 # ---- bounded: the real strings
@@ -131,9 +155,20 @@ def h_str(ctx, kind, fancy, n_dec):
 def b_strings(rng, tier):
     from pymeeus.Angle import Angle
     n = 300000 if tier == "thorough" else 3000
-    for i in range(n):
+    # exact whole minutes / seconds (the doubles nearest to d + m/60 [+ s/3600]), as angles and as hours
+    exact = []
+    for d in ((0, 1, 4, 8, 16, 89, 179, 359) if tier != "thorough" else range(0, 360)):
+        for m in range(60):
+            exact.append(d + m / 60.0)
+            exact.append(-(d + m / 60.0))
+            exact.append(15.0 * ((d % 24) + m / 60.0) if (d % 24) * 15 + 15 < 360 else d + m / 60.0)
+            exact.append(d + m / 60.0 + (m * 7 % 60) / 3600.0)
+    for i in range(n + len(exact)):
         kind = i % 4
-        if kind == 0:
+        if i >= n:
+            x = exact[i - n]
+            kind = 1
+        elif kind == 0:
             x = rng.uniform(-360, 360)
         else:
             base = rng.randint(-359, 359) + rng.choice((0, rng.randint(0, 59) / 60.0, rng.randint(0, 3599) / 3600.0))
